@@ -33,6 +33,7 @@ pub struct Core {
     pub down: bool,
     pub proj: bool,
     pub restarts: u64,
+    pub gone: Option<String>,
 }
 
 pub async fn base_config() -> Config {
@@ -62,6 +63,7 @@ impl Core {
             down: false,
             proj,
             restarts: 0,
+            gone: None,
         }
     }
 
@@ -318,10 +320,9 @@ impl Core {
             }
             "disconnect" => {
                 let id = self.names.id(&c);
-                // the session is gone: its receivers are dropped
-                let prefix = format!("{c}:");
-                self.subs.retain(|k, _| !k.starts_with(&prefix));
-                self.ls.retain(|k, _| !k.starts_with(&prefix));
+                // the session's forwarding tasks live until the core has dropped its subscriptions;
+                // its receivers are dropped after the step has been observed (see `step`)
+                self.gone = Some(format!("{c}:"));
                 match self.wb.disconnected(id, None).await {
                     Ok(()) => json!({"t": "ok"}),
                     Err(e) => Self::err(e),
@@ -463,6 +464,10 @@ impl Core {
             Ok(rep) => {
                 rec["rep"] = rep;
                 let (ev, ls, lk) = self.drain();
+                if let Some(prefix) = self.gone.take() {
+                    self.subs.retain(|k, _| !k.starts_with(&prefix));
+                    self.ls.retain(|k, _| !k.starts_with(&prefix));
+                }
                 rec["ev"] = ev;
                 rec["ls"] = ls;
                 rec["lk"] = lk;
